@@ -49,20 +49,28 @@ CLAIMED = {
    note="Trusted: Coq kernel; the hand-written model (Model/VcdBody.v, Model/WaveMem.v) is tied to the Rust code by the correspondence check (extraction ExtrOcamlBasic, OCaml driver incl. float_of_string as f64 parser and identity as LZ4, Rust harness, generators, Python oracle). Theorem premises: A-lz4 round trip; < 2^32 time-table entries; < 4 GiB per signal; block capacity <= 65536.",
    technique="Coq proof (parser events -> store -> loaded signal) + extracted-model correspondence + oracle"),
  "C03": dict(
-   category="translation_validation",
-   text="The Gallina model of determine_thread_chunks / read_values / parse_body's hand-over rule / Encoder::append is run against the "
-        "real multi-threaded loader (MIN_CHUNK_SIZE override hook, rayon pools of 1..16 threads) with a chunk boundary swept over every "
-        "byte alignment by blank padding, production chunking on 16 KiB..MiB bodies and recordings of 70000..200000 time steps (block "
-        "roll-over inside a chunk); oracle: equals the single-threaded observation and the meaning of the history. The claim is "
-        "restricted to bodies satisfying the line discipline LD1-LD5; outside it the property is false on this code (7 known findings "
-        "with witnesses, re-confirmed on every run). Coq theorems pinned in Properties/C03.v cover the two halves separately: "
-        "handover_segment / chunk_simulates (a parser thread started in mid body emits, after skipping to the next line start, exactly "
-        "the events the sequential parser emits from there until its stop rule fires) and appended_transparent / appended_transparent_rs "
-        "(whatever the per-thread encoders recorded is reported in chunk order with shifted time indices, de-duplicated across seams, "
-        "for bit vectors, reals and strings). That consecutive segments tile the sequential event list is not proved, hence the level.",
-   design_ref="DESIGN.md section 6, C03",
-   note="Trusted: Coq kernel, extraction (ExtrOcamlBasic), OCaml driver incl. float_of_string as f64 parser and identity as LZ4, Rust harness, generators and the Python oracle computed from the abstract history.  A-rayon: indexed collect preserves order; chunk closures are pure functions of shared immutable data.",
-   technique="correspondence: Coq model extracted to OCaml vs real code over exhaustive boundary alignments + oracle; Coq theorems for the parser half and the storage half of the hand-over"),
+   category="proof",
+   text="Coq theorem read_values_mt_equals_st (Proofs/MtProofs.v, pinned in Properties/C03.v): for every VCD body written one token "
+        "group per line (time stamps, scalar and vector/real/string changes, $comment blocks, $dumpvars/$end/$dumpoff/$dumpon, any "
+        "content) whose first line is a time stamp and whose time stamps increase, for EVERY max_threads and min_chunk - hence every "
+        "number of chunks and every division point the production chunking can produce - and, in mt_equals_st, for every division of "
+        "the body into consecutive chunks of any sizes whatsoever (boundaries inside tokens, time stamps, comments, directly before or "
+        "after a newline, chunks holding no time stamp), the model of read_values' multi-threaded branch (determine_thread_chunks, "
+        "run_chunk per chunk with parse_body's skip-to-newline and stop rule, Encoder::append in order, finish) and of its "
+        "single-threaded branch yield stores from which every bit-vector signal reports the same changes, although the blocks differ. "
+        "Steps, all pinned: thread_first / thread_later (which lines a thread started at a byte offset parses), ops_tile (the threads' "
+        "pieces tile the sequential operation list without gap or overlap), rec_concat, appended_transparent(_rs), chunks_shape "
+        "(determine_thread_chunks yields consecutive chunks covering the body). For arbitrary layouts handover_segment / chunk_simulates "
+        "prove the parser half only. The hypotheses are exactly the line discipline LD1-LD5 outside which the property is FALSE on this "
+        "code (7 known findings with witnesses, re-confirmed on every run). Not covered by the end-to-end theorem: real/string signals "
+        "(storage half proved), bodies that start with changes at the implicit time 0, several token groups per line. Those, and the tie "
+        "of the model to vcd.rs/wavemem.rs, are decided by the correspondence run: the extracted model against the real multi-threaded "
+        "loader (MIN_CHUNK_SIZE override hook, rayon pools of 1..16 threads) with a chunk boundary swept over every byte alignment, "
+        "production chunking on 16 KiB..MiB bodies, recordings of 70000..200000 time steps; oracle: equals the single-threaded "
+        "observation and the meaning of the history.",
+   design_ref="DESIGN.md section 6, C03 and section 12.5",
+   note="Trusted: Coq kernel; the hand-written model (Model/VcdBody.v, Model/WaveMem.v) tied to the Rust code by the correspondence check (extraction ExtrOcamlBasic, OCaml driver incl. float_of_string as f64 parser and identity as LZ4, Rust harness, generators, Python oracle computed from the abstract history).  A-rayon: indexed collect preserves order; chunk closures are pure functions of shared immutable data. Theorem premises: A-lz4 round trip; < 2^32 time-table entries; < 4 GiB per signal; block capacity <= 65536.",
+   technique="Coq proof (multi-threaded model = single-threaded model for every chunking, line-per-token bodies) + extracted-model correspondence over exhaustive boundary alignments + oracle"),
  "C04": dict(
    category="proof",
    text="Coq theorems pinned in Properties/C04.v: storage_transparent (Proofs/EncoderProofs.v) - for every history of time stamps and value "
